@@ -120,3 +120,94 @@ func Replay(choices []int, run func(c *Chooser) bool) *Chooser {
 	run(c)
 	return c
 }
+
+// ---------------------------------------------------------------------
+// Sparse variant for executions with thousands of choice points of which
+// almost all take the default (scheduling points): a prefix is the list of
+// deviations (point index, choice) only.
+
+// Dev is one non-default choice.
+type Dev struct{ At, Choice int }
+
+// SparseChooser answers 0 everywhere except at the listed deviations.
+type SparseChooser struct {
+	devs  []Dev
+	next  int // index into devs
+	n     int // points met
+	arity []uint8
+}
+
+// Choose returns the choice for the next point.
+func (c *SparseChooser) Choose(n int) int {
+	i := c.n
+	c.n++
+	if n > 255 {
+		panic(HarnessError{"sparse chooser: arity above 255"})
+	}
+	c.arity = append(c.arity, uint8(n))
+	if c.next < len(c.devs) && c.devs[c.next].At == i {
+		v := c.devs[c.next].Choice
+		c.next++
+		if v >= n {
+			panic(HarnessError{fmt.Sprintf("replay choice %d out of range %d at point %d: nondeterminism not owned", v, n, i)})
+		}
+		return v
+	}
+	return 0
+}
+
+// Points returns the number of points met so far.
+func (c *SparseChooser) Points() int { return c.n }
+
+// Devs returns the deviations this execution was given.
+func (c *SparseChooser) Devs() []Dev { return append([]Dev(nil), c.devs...) }
+
+// NewSparseChooser replays a deviation list.
+func NewSparseChooser(devs []Dev) *SparseChooser { return &SparseChooser{devs: devs} }
+
+// SparseExplorer enumerates all executions with at most Bound deviations.
+type SparseExplorer struct {
+	Bound    int
+	Run      func(c *SparseChooser) bool
+	Runs     int64
+	MaxPts   int
+	Complete bool
+}
+
+// Explore runs the bounded tree.
+func (e *SparseExplorer) Explore() {
+	e.Complete = true
+	stack := [][]Dev{nil}
+	for len(stack) > 0 {
+		devs := stack[len(stack)-1]
+		stack = stack[:len(stack)-1]
+		c := &SparseChooser{devs: devs}
+		e.Runs++
+		ok := e.Run(c)
+		if c.next < len(c.devs) {
+			panic(HarnessError{fmt.Sprintf("execution ended after %d points before deviation at %d: nondeterminism not owned", c.n, c.devs[c.next].At)})
+		}
+		if c.n > e.MaxPts {
+			e.MaxPts = c.n
+		}
+		if !ok {
+			e.Complete = false
+			return
+		}
+		if len(devs) >= e.Bound {
+			continue
+		}
+		from := 0
+		if len(devs) > 0 {
+			from = devs[len(devs)-1].At + 1
+		}
+		for i := c.n - 1; i >= from; i-- {
+			for alt := int(c.arity[i]) - 1; alt >= 1; alt-- {
+				nd := make([]Dev, len(devs)+1)
+				copy(nd, devs)
+				nd[len(devs)] = Dev{i, alt}
+				stack = append(stack, nd)
+			}
+		}
+	}
+}
